@@ -439,7 +439,10 @@ def prepare_alt():
     os.makedirs(COQ, exist_ok=True)
     os.makedirs(BUILD, exist_ok=True)
     with Lock('coq', SHARED_BUILD):   # nobody is compiling in the shared tree while it is copied
-        sh(['rsync', '-a', '--delete', SHARED_COQ + '/', COQ + '/'], check=True)
+        # the per-run case shards (cases/CXX_<tag>_<k>.v*) of concurrently running checks come and go: not copied
+        rc, o = sh(['rsync', '-a', '--delete', '--exclude=/cases/C[0-9][0-9]_*_[0-9]*', SHARED_COQ + '/', COQ + '/'])
+        if rc not in (0, 24):
+            raise RuntimeError('rsync of the Coq tree failed (%d): %s' % (rc, o[-2000:]))
         if os.path.isdir(os.path.join(SHARED_BUILD, 'extract')):
             sh(['rsync', '-a', os.path.join(SHARED_BUILD, 'extract') + '/', os.path.join(BUILD, 'extract') + '/'])
 
